@@ -109,6 +109,7 @@ MUTABLE_DEFAULTS = [
     [Pt(1, 2)], {"p": Pt(0, 0)}, [(7,)], {"k": (8,)}, ListSub([1]), DictSub(a=1), SetSub({1}), [ListSub([2])], {"d": DictSub(b=2)}, [IntSub(4), StrSub("y")], [TupleSub((3,))],
     [], {}, set(), bytearray(b""), bytearray(b"x"), [Decimal("1"), [IE8.Z]], {"k": Fraction(1)}, {Decimal("1"): 1}, [range(0, 10, 2)], {1, 2.0}, [float("nan")], [Obj(3)],
     [True, 1, 1.0], {"a": [1, {"b": ()}]}, [slice(1, 2, 3)], [b"x", bytearray(b"y")],
+    ([0, 0], [640, 480]), ([], {"ttl": [64]}), ({"cpu": 1}, {"mem"}), (1, [2], "s"),
 ]
 
 
@@ -408,9 +409,14 @@ def check_program(ctx, rng, kind, fields, modes, recipe_extra=(), skip=()):  # n
                 edited = []
                 v0 = _view(kind, fields, results[0])
                 for f in fields:
-                    if f.name in given or f.req != "default" or not isinstance(v0[f.name], _MUT):
+                    if f.name in given or f.req != "default":
                         continue
                     obj0 = v0[f.name]
+                    if isinstance(obj0, tuple):
+                        # an immutable default may still HOLD a mutable container: ([0, 0], [640, 480]) (seeded change: tuple defaults hoisted to a constant)
+                        obj0 = next((x for x in obj0 if isinstance(x, _MUT)), None)
+                    if not isinstance(obj0, _MUT):
+                        continue
                     if isinstance(obj0, list):
                         obj0.append("edited-by-caller")
                     elif isinstance(obj0, dict):
